@@ -45,6 +45,8 @@ package engine
 //@ func Socket.Upgraded()
 //@   pure
 //@   ensures result == this.$upgraded
+//@ func Socket.MaybeUpgrade(transport)
+//@   modifies *
 
 // ---- C05: admission checks in their fixed precedence ------------------------------------------------------
 // transport known and enabled > Origin well-formed > session id known and bound to the same transport unless
@@ -93,7 +95,10 @@ package engine
 // Thin contracts used at call sites; each function is verified against its own clauses below.
 
 //@ func (*socket).onError(err)
+//@   props C03
+//@   requires sockLive(s)
 //@   modifies *
+//@   ensures [C03.transporterror] calls((*socket).OnClose) == 1 && arg((*socket).OnClose, 1, reason) == "transport error"
 //@ func (*socket).OnClose(reason, description)
 //@   props C03, C07, C18, C12
 //@   requires sockLive(s)
@@ -274,6 +279,7 @@ package engine
 //@ func (*server).OnWebTransportSession(ctx, wt)
 //@   props C10, C08, C09
 //@   requires s != nil && s.BaseServer != nil && ctxOK(ctx) && wt != nil
+//@   requires ctx.Websocket == nil && ctx.WebTransport == nil   // a request context that no upgrade handler has touched yet
 //@   dyncall allowRequest pure
 //@   opt stopafter = (*webtrans.Conn).NextReader#1
 //@   modifies *
@@ -295,8 +301,30 @@ package engine
 //@   ensures [C05.emit.one] emitted(s.BaseServer, "connection_error") == 1 && calls(abortRequest) == 1 && before(types.EventEmitter.Emit, 1, abortRequest, 1) && nevents() == 2
 //@   callsite abortRequest#1
 //@     assert [C05.emit.same] $ctx == ctx && $codeMessage == codeMessage && $errorContext == errorContext
+// an upgraded WebSocket: without a session id it handshakes; with one it is a candidate transport for that session and
+// is admitted only when the session exists and is neither upgrading nor upgraded - every other case closes the candidate
+// and leaves the session alone
 //@ func (*server).onWebSocket(ctx, wsc)
+//@   props C08, C05
+//@   requires s != nil && s.BaseServer != nil && ctxOK(ctx) && wscOK(wsc)
 //@   modifies *
+//@   let tname   = uf_s_peek(ctx.query, "transport", old(ctx.query.$bagver))
+//@   let id      = uf_s_peek(ctx.query, "sid", old(ctx.query.$bagver))
+//@   let refuses = calls(transports.TransportCtor.HandlesUpgrades) == 1 && !ret(transports.TransportCtor.HandlesUpgrades, 1)   // the named builder exists and does not take upgraded connections
+//@   ensures [C08.ws.refuse]   refuses ==> calls((*types.WebSocketConn).Close) == 1 && calls(Socket.MaybeUpgrade) == 0 && calls(BaseServer.Handshake) == 0
+//@   ensures [C05.ws.handshake] !refuses && len(id) == 0 ==> calls(BaseServer.Handshake) == 1 && calls(Socket.MaybeUpgrade) == 0
+//@   ensures [C05.ws.hsargs]    !refuses && len(id) == 0 ==> arg(BaseServer.Handshake, 1, transportName) == tname
+//@   ensures [C05.ws.hsctx]    !refuses && len(id) == 0 ==> arg(BaseServer.Handshake, 1, ctx) == ctx
+//@   ensures [C05.ws.hsreject] !refuses && len(id) == 0 && ret(BaseServer.Handshake, 1, 1) == nil ==> calls(abortUpgrade) == 1 && arg(abortUpgrade, 1, codeMessage) == ret(BaseServer.Handshake, 1, 0)
+//@   ensures [C05.ws.hsaccept] !refuses && len(id) == 0 && ret(BaseServer.Handshake, 1, 1) != nil ==> calls(abortUpgrade) == 0 && calls((*types.WebSocketConn).Close) == 0
+//@   ensures [C08.ws.unknown]  !refuses && len(id) > 0 && !ret((*types.Map).Load, 1, 1) ==> calls((*types.WebSocketConn).Close) == 1 && calls(Socket.MaybeUpgrade) == 0 && calls(BaseServer.Handshake) == 0
+//@   ensures [C08.ws.busy]     !refuses && len(id) > 0 && ret((*types.Map).Load, 1, 1) && (ret(Socket.Upgrading, 1) || ret(Socket.Upgraded, 1)) ==> calls((*types.WebSocketConn).Close) == 1 && calls(Socket.MaybeUpgrade) == 0 && calls((*server).CreateTransport) == 0
+//@   ensures [C08.ws.admit]    calls(Socket.MaybeUpgrade) <= 1 && (calls(Socket.MaybeUpgrade) == 1 ==> !refuses && len(id) > 0 && ret((*types.Map).Load, 1, 1) && !ret(Socket.Upgrading, 1) && !ret(Socket.Upgraded, 1) && ret((*server).CreateTransport, 1, 1) == nil && arg(Socket.MaybeUpgrade, 1, transport) == ret((*server).CreateTransport, 1, 0) && calls((*types.WebSocketConn).Close) == 0)
+//@   ensures [C08.ws.admitted] !refuses && len(id) > 0 && ret((*types.Map).Load, 1, 1) && !ret(Socket.Upgrading, 1) && !ret(Socket.Upgraded, 1) && ret((*server).CreateTransport, 1, 1) == nil ==> calls(Socket.MaybeUpgrade) == 1 && arg(Socket.MaybeUpgrade, 1, this) == ret((*types.Map).Load, 1, 0)
+//@   callsite abortUpgrade#1
+//@     assert [C05.ws.ctxws] ctx.Websocket == wsc
+//@   callsite transports.TransportCtor.HandlesUpgrades#1
+//@     assert [C08.ws.builder] maphas(ret(transports.Transports, 1), tname) && $this == mapval(ret(transports.Transports, 1), tname)
 
 // ---- C05: the rejection answer ----------------------------------------------------------------------------
 //@ func abortRequest(ctx, codeMessage, errorContext)
@@ -313,12 +341,32 @@ package engine
 //@   callsite (*types.HttpContext).Write#1
 //@     assert [C05.abort.body] $wb == ret(json.Marshal, 1, 0) && ret(json.Marshal, 1, 1) == nil
 
+// the upgrade-time rejection answer: a close frame on an upgraded WebSocket, a session error on a WebTransport session,
+// a plain 400 otherwise - each carrying the same text (the context's "message" overrides the table text), exactly once
 //@ func abortUpgrade(ctx, codeMessage, errorContext)
+//@   props C05
+//@   requires ctxOK(ctx) && codeMessage != nil
+//@   requires maphas(errorContext, "message") ==> typeis(mapval(errorContext, "message"), string)
+//@   requires ctx.Websocket != nil ==> wscOK(ctx.Websocket)
+//@   requires ctx.Websocket == nil && ctx.WebTransport != nil ==> wtcOK(ctx.WebTransport)
 //@   modifies *
+//@   let override = old(maphas(errorContext, "message"))
+//@   let message  = override ? old(unbox(mapval(errorContext, "message"), string)) : old(codeMessage.Message)
+//@   let ws = old(ctx.Websocket) != nil
+//@   let wt = old(ctx.Websocket) == nil && old(ctx.WebTransport) != nil
+//@   ensures [C05.abortup.ws]   ws ==> calls((*websocket.Conn).WriteMessage) == 1 && arg((*websocket.Conn).WriteMessage, 1, messageType) == websocket.CloseMessage && calls((*types.WebSocketConn).Close) == 1 && before((*websocket.Conn).WriteMessage, 1, (*types.WebSocketConn).Close, 1) && calls(io.WriteString) == 0
+//@   ensures [C05.abortup.wstext] ws ==> arg(websocket.FormatCloseMessage, 1, text) == message && arg((*websocket.Conn).WriteMessage, 1, data) == ret(websocket.FormatCloseMessage, 1)
+//@   ensures [C05.abortup.wt]   wt ==> calls((*types.WebTransportConn).CloseWithError) == 1 && arg((*types.WebTransportConn).CloseWithError, 1, code) == 400 && arg((*types.WebTransportConn).CloseWithError, 1, msg) == message && calls(io.WriteString) == 0
+//@   ensures [C05.abortup.http] !ws && !wt ==> calls((*types.HttpContext).SetStatusCode) == 1 && arg((*types.HttpContext).SetStatusCode, 1, statusCode) == 400 && calls(io.WriteString) == 1 && arg(io.WriteString, 1, s) == message
 
+// (model clause) the connection wrappers of a request context are attached by the upgrade handlers only: a handshake
+// neither replaces nor dismantles them
 //@ func BaseServer.Handshake(transportName, ctx)
 //@   modifies *
 //@   ensures result1 == nil ==> result0 != nil
+//@   ensures ctx.Websocket == old(ctx.Websocket) && ctx.WebTransport == old(ctx.WebTransport)
+//@   ensures old(ctx.Websocket) != nil && old(wscOK(ctx.Websocket)) ==> wscOK(ctx.Websocket)
+//@   ensures old(ctx.WebTransport) != nil && old(wtcOK(ctx.WebTransport)) ==> wtcOK(ctx.WebTransport)
 //@ func BaseServer.Clients()
 //@   opt stable
 //@   noeffect
